@@ -23,6 +23,8 @@ func VerifSetup_SubRing(n int, q uint64) *SubRing {
 type vVecCase struct {
 	name string
 	wide bool // first operand ranges over all 64-bit words
+	// documented lazy input ranges: p1 < lazy1·q, p2 < lazy2·q (0 means 1)
+	lazy1, lazy2 uint64
 	run  func(s *SubRing, p1, p2, p3 []uint64, a, b uint64)
 	lane func(s *SubRing, x, y, z, a, b uint64) uint64
 	spec func(s *SubRing, out, x, y, z, a, b uint64) bool
@@ -158,7 +160,7 @@ func vVecCases() []vVecCase {
 			run:  func(s *SubRing, p1, p2, p3 []uint64, a, b uint64) { s.AddScalarLazy(p1, a, p3) },
 			lane: func(s *SubRing, x, y, z, a, b uint64) uint64 { return x + a },
 			spec: func(s *SubRing, o, x, y, z, a, b uint64) bool { return vB(o).Cmp(vAddB(vB(x), vB(a))) == 0 }},
-		{name: "AddScalarLazyThenNegTwoModulusLazy",
+		{name: "AddScalarLazyThenNegTwoModulusLazy", lazy1: 2,
 			run:  func(s *SubRing, p1, p2, p3 []uint64, a, b uint64) { s.AddScalarLazyThenNegTwoModulusLazy(p1, a, p3) },
 			lane: func(s *SubRing, x, y, z, a, b uint64) uint64 { return a + (s.Modulus << 1) - x },
 			spec: func(s *SubRing, o, x, y, z, a, b uint64) bool {
@@ -188,7 +190,7 @@ func vVecCases() []vVecCase {
 			spec: func(s *SubRing, o, x, y, z, a, b uint64) bool {
 				return o < s.Modulus && vCong(vShl64(o), vAddB(vShl64(a), vMulB(x, b)), s.Modulus)
 			}},
-		{name: "SubThenMulScalarMontgomeryTwoModulus",
+		{name: "SubThenMulScalarMontgomeryTwoModulus", lazy1: 6, lazy2: 2, // p1: NTTLazy output, p2 in [0, 2q)
 			run:  func(s *SubRing, p1, p2, p3 []uint64, a, b uint64) { s.SubThenMulScalarMontgomeryTwoModulus(p1, p2, a, p3) },
 			lane: func(s *SubRing, x, y, z, a, b uint64) uint64 { return MRed((s.Modulus<<1)-y+x, a, s.Modulus, s.MRedConstant) },
 			spec: func(s *SubRing, o, x, y, z, a, b uint64) bool {
@@ -209,19 +211,31 @@ func vVecCases() []vVecCase {
 	}
 }
 
-func vRunVecCase(c vVecCase, q uint64) {
+func vRunVecCase(c vVecCase, q uint64, concreteScalars bool) {
 	const n = 16
 	s := VerifSetup_SubRing(n, q)
 	p1, p2, p3 := vU64s("p1", n), vU64s("p2", n), vU64s("p3", n)
 	a, b := vU64("a"), vU64("b")
+	if concreteScalars {
+		// concrete scalars make every product linear: a counterexample of the lane checks is then an exact model
+		// (with a symbolic scalar the product is an abstract value and a model may not replay)
+		a, b = 0x9e3779b97f4a7c15%q, 0xc2b2ae3d27d4eb4f%q
+	}
 	vAssume(a < q)
 	vAssume(b < q)
 	var x, y, z [n]uint64
 	for j := 0; j < n; j++ {
-		if !c.wide {
-			vAssume(p1[j] < q)
+		l1, l2 := c.lazy1, c.lazy2
+		if l1 == 0 {
+			l1 = 1
 		}
-		vAssume(p2[j] < q)
+		if l2 == 0 {
+			l2 = 1
+		}
+		if !c.wide {
+			vAssume(p1[j] < l1*q)
+		}
+		vAssume(p2[j] < l2*q)
 		vAssume(p3[j] < q)
 		x[j], y[j], z[j] = p1[j], p2[j], p3[j]
 	}
@@ -242,7 +256,10 @@ func VerifH_C01_VecOps() {
 			continue
 		}
 		for _, c := range vVecCases() {
-			vRunVecCase(c, q)
+			vRunVecCase(c, q, false)
+			if c.lazy1 != 0 || c.lazy2 != 0 {
+				vRunVecCase(c, q, true)
+			}
 		}
 	}
 	vCover("vecops-reached")
